@@ -70,7 +70,7 @@ theorem countEff_fold (stack : List Instr) : ∀ (A : AbsSt),
     simp only [List.foldl_cons]
     rw [ih, countEff_step, effCount_cons, Nat.add_assoc]
 
-theorem eff_of_drel {s : St} {ss : SpecSt} (h : DRel s ss) : effCount s.root.context = countEff ss.out := by
+theorem eff_of_drel {g : Globals} {R : Ty} {s : St} {ss : SpecSt} (h : DRel g R s ss) : effCount s.root.context = countEff ss.out := by
   rw [← h.out]
   unfold St.abs abstractFold
   rw [countEff_fold]
@@ -240,29 +240,29 @@ def RetV (K : LoopK) (s s' : St) (p : List Flow × Nat) : Prop :=
 
 
 section leaves
-variable {g : Globals} {rg : RGlobals}
+variable {g : Globals} {R : Ty} {rg : RGlobals}
 
-theorem eff_trans {s s1 : St} {ss : SpecSt} {evs : List DStmt} (hr : DRel s ss) (t : Trans s s1 evs) :
+theorem eff_trans {s s1 : St} {ss : SpecSt} {evs : List DStmt} (hr : DRel g R s ss) (t : Trans g s s1 evs) :
     effCount s1.root.context = effCount s.root.context + countEff evs := by
   rw [eff_of_drel (drel_trans hr t), eff_of_drel hr]
   simp only [SpecSt.emits]
   rw [countEff_append]
 
-theorem cps_let (hg : GlobRel g rg) (hn : GNames g) (K : LoopK) (b : LetB) (s : St) (ss : SpecSt) (hr : DRel s ss)
+theorem cps_let (hg : GlobRel g rg) (hn : GNames g) (K : LoopK) (b : LetB) (s : St) (ss : SpecSt) (hr : DRel g R s ss)
     (he : (letBinding g b s).errors = s.errors) : CPS K s (letBinding g b s) (lowerLet b) := by
   have hd := den_let hg hn b s ss hr he
   have hc : effCount (letBinding g b s).root.context = effCount s.root.context + (b.value.calls + 1) := by
     rw [eff_of_drel hd, eff_of_drel hr, cnt_let]
   exact cps_straight (esteps_letBinding g b s) _ hc
 
-theorem cps_bind (hg : GlobRel g rg) (hn : GNames g) (K : LoopK) (b : Bind) (s : St) (ss : SpecSt) (hr : DRel s ss)
+theorem cps_bind (hg : GlobRel g rg) (hn : GNames g) (K : LoopK) (b : Bind) (s : St) (ss : SpecSt) (hr : DRel g R s ss)
     (he : (binding g b s).errors = s.errors) : CPS K s (binding g b s) (lowerBind b) := by
   have hd := den_bind hg hn b s ss hr he
   have hc : effCount (binding g b s).root.context = effCount s.root.context + (b.value.calls + 1) := by
     rw [eff_of_drel hd, eff_of_drel hr, cnt_bind]
   exact cps_straight (esteps_binding g b s) _ hc
 
-theorem cps_callS (hg : GlobRel g rg) (hn : GNames g) (K : LoopK) (c : CallS) (s : St) (ss : SpecSt) (hr : DRel s ss)
+theorem cps_callS (hg : GlobRel g rg) (hn : GNames g) (K : LoopK) (c : CallS) (s : St) (ss : SpecSt) (hr : DRel g R s ss)
     (he : (callStmt g c s).errors = s.errors) : CPS K s (callStmt g c s) (lowerCallS c) := by
   have hd := den_callS hg hn c s ss hr he
   have hc : effCount (callStmt g c s).root.context = effCount s.root.context + (Expr.callsL c.args + 1) := by
@@ -286,7 +286,7 @@ theorem cps_ret_seg {K : LoopK} {s s1 : St} (h : ESteps s s1) (c : Nat)
     rw [List.append_assoc, List.append_assoc, ← hseg]
     exact lay_seg seg _ h2 (Lay.ret K _ _ i _ e hi)
 
-theorem cps_jret (hg : GlobRel g rg) (hn : GNames g) (K : LoopK) (e : Expr) (s : St) (ss : SpecSt) (hr : DRel s ss)
+theorem cps_jret (hg : GlobRel g rg) (hn : GNames g) (K : LoopK) (e : Expr) (s : St) (ss : SpecSt) (hr : DRel g R s ss)
     (he : (nestedReturn g e s).1.errors = s.errors) :
     RetV K s (nestedReturn g e s).1 (lowerRet e (effCount s.root.context)) ∧ (nestedReturn g e s).2 = true := by
   unfold nestedReturn at he ⊢
@@ -312,11 +312,11 @@ theorem cps_jret (hg : GlobRel g rg) (hn : GNames g) (K : LoopK) (e : Expr) (s :
       exact ⟨cps_ret_seg hst e.calls hc (.jumpFnReturn r) rfl _ rfl, rfl⟩
 
 theorem cps_fnRet (hg : GlobRel g rg) (hn : GNames g) (K : LoopK) (resTy : Ty) (e : Expr) (s : St) (ss : SpecSt)
-    (hr : DRel s ss) (he : (fnReturn g resTy e false s).1.errors = s.errors) :
+    (hr : DRel g resTy s ss) (he : (fnReturn g resTy e false s).1.errors = s.errors) :
     RetV K s (fnReturn g resTy e false s).1 (lowerRet e (effCount s.root.context)) ∧ (fnReturn g resTy e false s).2 = true := by
   -- the evaluation succeeds
   have hx := exprM_ext g e s
-  have hsucc : ∃ r s1, exprM g e s = (some r, s1) ∧ Trans s s1 (specExpr false ss e).1 := by
+  have hsucc : ∃ r s1, exprM g e s = (some r, s1) ∧ Trans g s s1 (specExpr false ss e).1 := by
     unfold fnReturn at he
     cases hm : exprM g e s with
     | mk a s1 =>
@@ -364,7 +364,7 @@ theorem cps_fnRet (hg : GlobRel g rg) (hn : GNames g) (K : LoopK) (resTy : Ty) (
 
 /-- the condition of an `if`: straight code with the calls of the condition, then the branch -/
 theorem cond_shape (hg : GlobRel g rg) (hn : GNames g) (c : IfCond) (lb le ln : Name) (isElse : Bool) (s : St) (ss : SpecSt)
-    (hr : DRel s ss) (he : (ifCondCalc g c lb le ln isElse s).errors = s.errors) :
+    (hr : DRel g R s ss) (he : (ifCondCalc g c lb le ln isElse s).errors = s.errors) :
     ∃ s1 br, ESteps s s1 ∧ ifCondCalc g c lb le ln isElse s = s1.push br ∧
       br.targets = [lb, if isElse then le else ln] ∧ br.isRet = false ∧ br.isEffect = false ∧
       effCount s1.root.context = effCount s.root.context + c.calls := by
@@ -546,11 +546,11 @@ def PassV (K : LoopK) (s s' : St) (p : List Flow × Nat) (l0 : Name) : Prop :=
     Lay K (effCount s.root.context) p.1 seg (.jump l0)
 
 section control
-variable {g : Globals} {rg : RGlobals}
+variable {g : Globals} {R : Ty} {rg : RGlobals}
 
 /-- the prologue of an `if`: straight condition code, the branch, the begin label -/
 theorem prologue_shape (hg : GlobRel g rg) (hn : GNames g) (cond : IfCond) (dup isElse : Bool)
-    (le : Option Name) (s : St) (ss : SpecSt) (hr : DRel s ss)
+    (le : Option Name) (s : St) (ss : SpecSt) (hr : DRel g R s ss)
     (he : (ifPrologue g cond dup isElse le s).2.2.errors = s.errors) :
     ∃ seg br lBegin,
       (ifPrologue g cond dup isElse le s).2.2.root.context = s.root.context ++ (seg ++ [br, Instr.setLabel lBegin]) ∧
@@ -586,7 +586,7 @@ theorem prologue_shape (hg : GlobRel g rg) (hn : GNames g) (cond : IfCond) (dup 
   obtain ⟨e1, e2⟩ := chain2 x1 x2 he
   have hs0 : s0 = s := hdup (by rw [← f1.1]; exact e1)
   subst hs0
-  have r1 : DRel s1 ss.push := drel_enter hr q1 f1.2.1
+  have r1 : DRel g R s1 ss.push := drel_enter hr q1 f1.2.1
   obtain ⟨s2, br, hst, hcalc, hbr, hnr, hne, hcnt⟩ := cond_shape hg hn cond lBegin lElse lEnd isElse s1 ss.push r1 e2
   obtain ⟨seg, hseg, hstr⟩ := esteps_seg hst
   refine ⟨seg, br, lBegin, ?_, hstr, ?_, hbr, hnr, hne, hl0⟩
@@ -632,14 +632,14 @@ end control
 theorem lay_loopWrap (k : Name → Name → Bool → Bool → Bool → St → St × Bool) (F : SpecSt → SpecSt)
     (bf : Nat → List Flow × Nat) (ret brk : Bool) (K : LoopK)
     (hx : ∀ lb le rc bc cc s, Steps s (k lb le rc bc cc s).1)
-    (hk : ∀ lb le s ss, DRel s ss → (k lb le false false false s).1.errors = s.errors →
-      DRel (k lb le false false false s).1 (F ss) ∧ (k lb le false false false s).1.inner.length = s.inner.length)
-    (hlay : ∀ lb le b s ss, DRel s ss → (k lb le false false false s).1.errors = s.errors → (brk = true → b = true) →
+    (hk : ∀ lb le s ss, DRel g R s ss → (k lb le false false false s).1.errors = s.errors →
+      DRel g R (k lb le false false false s).1 (F ss) ∧ (k lb le false false false s).1.inner.length = s.inner.length)
+    (hlay : ∀ lb le b s ss, DRel g R s ss → (k lb le false false false s).1.errors = s.errors → (brk = true → b = true) →
       CPSv (some (lb, le, b)) s (k lb le false false false s).1 (bf (effCount s.root.context)) ∧
       ((k lb le false false false s).2 = true → endsRet (bf (effCount s.root.context)).1 = true))
     (hret : ∀ lb le s, (k lb le false false false s).2 = true → ret = true)
     (hf3 : (ret && brk) = false)
-    (s : St) (ss : SpecSt) (hr : DRel s ss) (he : (loopWrap k s).errors = s.errors) :
+    (s : St) (ss : SpecSt) (hr : DRel g R s ss) (he : (loopWrap k s).errors = s.errors) :
     CPSv K s (loopWrap k s) ([Flow.loop (bf (effCount s.root.context)).1], (bf (effCount s.root.context)).2) := by
   unfold loopWrap at he ⊢
   dsimp only at he ⊢
@@ -867,8 +867,8 @@ theorem ite_else {K : LoopK} {n : Nat} {tb eb : List Flow} {seg0 tc ec : List In
 theorem bodyj_cons {K : LoopK} {s s1 : St} {res : St × Bool} {ss1 : SpecSt} {p1 : List Flow × Nat} {lEnd : Name}
     (p2 : Nat → List Flow × Nat)
     (x1 : ∃ Δ, s1.errors = s.errors ++ Δ) (x2 : ∃ Δ, res.1.errors = s1.errors ++ Δ) (he : res.1.errors = s.errors)
-    (h1 : s1.errors = s.errors → CPSv K s s1 p1 ∧ DRel s1 ss1)
-    (h2 : DRel s1 ss1 → res.1.errors = s1.errors → BodyJ K s1 res (p2 (effCount s1.root.context)) lEnd) :
+    (h1 : s1.errors = s.errors → CPSv K s s1 p1 ∧ DRel g R s1 ss1)
+    (h2 : DRel g R s1 ss1 → res.1.errors = s1.errors → BodyJ K s1 res (p2 (effCount s1.root.context)) lEnd) :
     BodyJ K s res (p1.1 ++ (p2 p1.2).1, (p2 p1.2).2) lEnd := by
   obtain ⟨e1, e2⟩ := chain2 x1 x2 he
   obtain ⟨c, d⟩ := h1 e1
@@ -879,8 +879,8 @@ theorem bodyj_cons {K : LoopK} {s s1 : St} {res : St × Bool} {ss1 : SpecSt} {p1
 theorem cpsl_cons {K : LoopK} {s s1 : St} {res : St × Bool} {ss1 : SpecSt} {p1 : List Flow × Nat}
     (p2 : Nat → List Flow × Nat)
     (x1 : ∃ Δ, s1.errors = s.errors ++ Δ) (x2 : ∃ Δ, res.1.errors = s1.errors ++ Δ) (he : res.1.errors = s.errors)
-    (h1 : s1.errors = s.errors → CPSv K s s1 p1 ∧ DRel s1 ss1)
-    (h2 : DRel s1 ss1 → res.1.errors = s1.errors →
+    (h1 : s1.errors = s.errors → CPSv K s s1 p1 ∧ DRel g R s1 ss1)
+    (h2 : DRel g R s1 ss1 → res.1.errors = s1.errors →
       CPSv K s1 res.1 (p2 (effCount s1.root.context)) ∧ (res.2 = true → endsRet (p2 (effCount s1.root.context)).1 = true)) :
     CPSv K s res.1 (p1.1 ++ (p2 p1.2).1, (p2 p1.2).2) ∧ (res.2 = true → endsRet (p1.1 ++ (p2 p1.2).1) = true) := by
   obtain ⟨e1, e2⟩ := chain2 x1 x2 he
@@ -910,7 +910,7 @@ theorem cons_facts {s s1 sf : St} (rc bc cc : Bool)
 /-! ### The mutual induction over the control constructs -/
 
 section mutualLay
-variable {g : Globals} {rg : RGlobals}
+variable {g : Globals} {R : Ty} {rg : RGlobals}
 
 theorem kof_some (lb le : Name) (b : Bool) : KOf (some (lb, le)) b = some (lb, le, b) := rfl
 
@@ -918,7 +918,7 @@ theorem kof_some (lb le : Name) (b : Bool) : KOf (some (lb, le)) b = some (lb, l
 mutual
 theorem lay_ifCondition (hg : GlobRel g rg) (hn : GNames g) : ∀ (i : IfStmt) (le : Option Name) (ll : Option (Name × Name)) (b : Bool),
     IfStmt.anaOK ll.isSome i = true → (i.hasBrk = true → b = true) → i.f2 = false → i.f3 = false →
-    ∀ s ss, DRel s ss → (ifCondition g i le ll s).errors = s.errors →
+    ∀ s ss, DRel g R s ss → (ifCondition g i le ll s).errors = s.errors →
       (le = none → CPSv (KOf ll b) s (ifCondition g i le ll s) (IfStmt.lower i (effCount s.root.context))) ∧
       (∀ l0, le = some l0 → PassV (KOf ll b) s (ifCondition g i le ll s) (IfStmt.lower i (effCount s.root.context)) l0)
   | .mk cond body els elif, labelEnd, labelLoop, b => by
@@ -940,7 +940,7 @@ theorem lay_ifCondition (hg : GlobRel g rg) (hn : GNames g) : ∀ (i : IfStmt) (
     obtain ⟨lElse, lEnd, s1⟩ := p
     dsimp only at he x1 h1 p1 ⊢
     have x2 := (steps_ifBodies g body lEnd labelLoop s1).errors_ext
-    have h2 := den_ifBodies hg hn body lEnd labelLoop hokb s1 (specIfCond false cond ss.push)
+    have h2 := den_ifBodies (R := R) hg hn body lEnd labelLoop hokb s1 (specIfCond false cond ss.push)
     have l2 := lay_ifBodies hg hn body lEnd labelLoop b hokb hbb hf2.1.1 hf3.1.1 s1 (specIfCond false cond ss.push)
     generalize ifBodies g body lEnd labelLoop s1 = q at he x2 h2 l2 ⊢
     obtain ⟨s2, r⟩ := q
@@ -979,7 +979,7 @@ theorem lay_ifCondition (hg : GlobRel g rg) (hn : GNames g) : ∀ (i : IfStmt) (
     obtain ⟨seg0, br, lBegin, c1, hstr, hcnt, hbr, hnr, hne, hl0⟩ := p1 e1
     have hne2 : s2.inner ≠ [] := inner_ne_of_len (by rw [len2, len1])
     have f3' := f3 hne2
-    have r3 : DRel s3 (specBodies false rg body (specIfCond false cond ss.push)).pop := drel_leave r2 q3 f3'.2.1
+    have r3 : DRel g R s3 (specBodies false rg body (specIfCond false cond ss.push)).pop := drel_leave r2 q3 f3'.2.1
     rw [← q3.errors] at e4
     -- event numbers
     have hn1 : effCount s1.root.context = effCount s.root.context + effCount seg0 := by
@@ -998,7 +998,7 @@ theorem lay_ifCondition (hg : GlobRel g rg) (hn : GNames g) : ∀ (i : IfStmt) (
       simp only [Option.isSome_some, Bool.true_or, if_true] at hbr c3
       rw [(quiet_ifAfterElse _ _ _ _).errors] at e4
       have hbe : eb.hasBrk = true → b = true := fun h => hbrk (by unfold IfStmt.hasBrk; simp [h])
-      have r3e : DRel s3.enter (specBodies false rg body (specIfCond false cond ss.push)).pop.push :=
+      have r3e : DRel g R s3.enter (specBodies false rg body (specIfCond false cond ss.push)).pop.push :=
         drel_enter r3 (quiet_enter s3) (vals_enter s3)
       have l4 := lay_ifBodies hg hn eb lEnd labelLoop b hokr hbe hf2.1.2 hf3.1.2 s3.enter _ r3e e4
       have c5 := ctx_ifAfterElse k (ifBodies g eb lEnd labelLoop s3.enter).2 lEnd (ifBodies g eb lEnd labelLoop s3.enter).1
@@ -1102,7 +1102,7 @@ theorem lay_ifCondition (hg : GlobRel g rg) (hn : GNames g) : ∀ (i : IfStmt) (
             simp only [effCount_append, eff_br_label _ hne, eff_label]; omega
 theorem lay_ifBodies (hg : GlobRel g rg) (hn : GNames g) : ∀ (bd : IfBodies) (lEnd : Name) (ll : Option (Name × Name)) (b : Bool),
     IfBodies.anaOK ll.isSome bd = true → (bd.hasBrk = true → b = true) → bd.f2 = false → bd.f3 = false →
-    ∀ s ss, DRel s ss → (ifBodies g bd lEnd ll s).1.errors = s.errors →
+    ∀ s ss, DRel g R s ss → (ifBodies g bd lEnd ll s).1.errors = s.errors →
       BodyJ (KOf ll b) s (ifBodies g bd lEnd ll s) (IfBodies.lower bd (effCount s.root.context)) lEnd
   | .ifb l, lEnd, ll, b => by
     intro hok hbrk hf2 hf3 s ss hr he
@@ -1122,7 +1122,7 @@ theorem lay_ifBodies (hg : GlobRel g rg) (hn : GNames g) : ∀ (bd : IfBodies) (
 theorem lay_ifBody (hg : GlobRel g rg) (hn : GNames g) : ∀ (l : List IfBodyStmt) (lEnd : Name) (ll : Option (Name × Name)) (b rc : Bool),
     IfBodyStmt.anaOKL ll.isSome l = true → (IfBodyStmt.hasBrkL l = true → b = true) → IfBodyStmt.f2L l = false →
     IfBodyStmt.f3L l = false → (l = [] → rc = false) →
-    ∀ s ss, DRel s ss → (ifBody g l lEnd ll rc s).1.errors = s.errors →
+    ∀ s ss, DRel g R s ss → (ifBody g l lEnd ll rc s).1.errors = s.errors →
       BodyJ (KOf ll b) s (ifBody g l lEnd ll rc s) (IfBodyStmt.lowerL l (effCount s.root.context)) lEnd
   | [], lEnd, ll, b, rc => by
     intro _ _ _ _ hrc s ss hr _
@@ -1243,7 +1243,7 @@ theorem lay_ifBody (hg : GlobRel g rg) (hn : GNames g) : ∀ (l : List IfBodyStm
 theorem lay_ifLoopBody (hg : GlobRel g rg) (hn : GNames g) : ∀ (l : List IfLoopStmt) (lEnd lb le : Name) (b rc bc cc : Bool),
     IfLoopStmt.anaOKL l = true → (IfLoopStmt.hasBrkL l = true → b = true) → IfLoopStmt.f2L l = false →
     IfLoopStmt.f3L l = false → (l = [] → rc = false) →
-    ∀ s ss, DRel s ss → (ifLoopBody g l lEnd lb le rc bc cc s).1.errors = s.errors →
+    ∀ s ss, DRel g R s ss → (ifLoopBody g l lEnd lb le rc bc cc s).1.errors = s.errors →
       BodyJ (some (lb, le, b)) s (ifLoopBody g l lEnd lb le rc bc cc s) (IfLoopStmt.lowerL l (effCount s.root.context)) lEnd
   | [], lEnd, lb, le, b, rc, bc, cc => by
     intro _ _ _ _ hrc s ss hr _
@@ -1373,7 +1373,7 @@ theorem lay_ifLoopBody (hg : GlobRel g rg) (hn : GNames g) : ∀ (l : List IfLoo
     subst h1; subst h2; subst h3
     rw [forbidden_fff] at he x1 x2 ⊢
     have e2 := (chain2 x1 x2 he).2
-    have jd : DRel (s.push (Instr.jumpTo le)) ss := drel_same hr (quiet_push _ (skipped_jumpTo _) _) (vals_push _ _)
+    have jd : DRel g R (s.push (Instr.jumpTo le)) ss := drel_same hr (quiet_push _ (skipped_jumpTo _) _) (vals_push _ _)
     have jr : RetV (some (lb, le, b)) s (s.push (Instr.jumpTo le)) ([Flow.brk], effCount s.root.context) :=
       ⟨[Instr.jumpTo le], rfl, by simp [effCount, Instr.isEffect], fun rest code e => by
         subst hb
@@ -1402,7 +1402,7 @@ theorem lay_ifLoopBody (hg : GlobRel g rg) (hn : GNames g) : ∀ (l : List IfLoo
     subst h1; subst h2; subst h3
     rw [forbidden_fff] at he x1 x2 ⊢
     have e2 := (chain2 x1 x2 he).2
-    have jd : DRel (s.push (Instr.jumpTo lb)) ss := drel_same hr (quiet_push _ (skipped_jumpTo _) _) (vals_push _ _)
+    have jd : DRel g R (s.push (Instr.jumpTo lb)) ss := drel_same hr (quiet_push _ (skipped_jumpTo _) _) (vals_push _ _)
     have jr : RetV (some (lb, le, b)) s (s.push (Instr.jumpTo lb)) ([Flow.cont], effCount s.root.context) :=
       ⟨[Instr.jumpTo lb], rfl, by simp [effCount, Instr.isEffect], fun rest code e => by
         skip
@@ -1422,7 +1422,7 @@ theorem lay_ifLoopBody (hg : GlobRel g rg) (hn : GNames g) : ∀ (l : List IfLoo
 theorem lay_loopBody (hg : GlobRel g rg) (hn : GNames g) : ∀ (l : List LoopStmt) (lb le : Name) (b rc bc cc : Bool),
     LoopStmt.anaOKL l = true → (LoopStmt.nestedBrkL l = true → b = true) → LoopStmt.f2L l = false →
     LoopStmt.f3L l = false → (l = [] → rc = false) →
-    ∀ s ss, DRel s ss → (loopBody g l lb le rc bc cc s).1.errors = s.errors →
+    ∀ s ss, DRel g R s ss → (loopBody g l lb le rc bc cc s).1.errors = s.errors →
       CPSv (some (lb, le, b)) s (loopBody g l lb le rc bc cc s).1 (LoopStmt.lowerL l (effCount s.root.context)) ∧
       ((loopBody g l lb le rc bc cc s).2 = true → endsRet (LoopStmt.lowerL l (effCount s.root.context)).1 = true)
   | [], lb, le, b, rc, bc, cc => by
@@ -1545,7 +1545,7 @@ theorem lay_loopBody (hg : GlobRel g rg) (hn : GNames g) : ∀ (l : List LoopStm
     subst h1; subst h2; subst h3
     rw [forbidden_fff] at he x1 x2 ⊢
     have e2 := (chain2 x1 x2 he).2
-    have jd : DRel (s.push (Instr.jumpTo le)) ss := drel_same hr (quiet_push _ (skipped_jumpTo _) _) (vals_push _ _)
+    have jd : DRel g R (s.push (Instr.jumpTo le)) ss := drel_same hr (quiet_push _ (skipped_jumpTo _) _) (vals_push _ _)
     have jr : RetV (some (lb, le, b)) s (s.push (Instr.jumpTo le)) ([Flow.brk], effCount s.root.context) :=
       ⟨[Instr.jumpTo le], rfl, by simp [effCount, Instr.isEffect], fun rest code e => by
         subst hb
@@ -1575,7 +1575,7 @@ theorem lay_loopBody (hg : GlobRel g rg) (hn : GNames g) : ∀ (l : List LoopStm
     subst h1; subst h2; subst h3
     rw [forbidden_fff] at he x1 x2 ⊢
     have e2 := (chain2 x1 x2 he).2
-    have jd : DRel (s.push (Instr.jumpTo lb)) ss := drel_same hr (quiet_push _ (skipped_jumpTo _) _) (vals_push _ _)
+    have jd : DRel g R (s.push (Instr.jumpTo lb)) ss := drel_same hr (quiet_push _ (skipped_jumpTo _) _) (vals_push _ _)
     have jr : RetV (some (lb, le, b)) s (s.push (Instr.jumpTo lb)) ([Flow.cont], effCount s.root.context) :=
       ⟨[Instr.jumpTo lb], rfl, by simp [effCount, Instr.isEffect], fun rest code e => by
         skip
@@ -1600,7 +1600,7 @@ end mutualLay
 /-! ### Function level -/
 
 section fnLevel
-variable {g : Globals} {rg : RGlobals}
+variable {g : Globals} {R : Ty} {rg : RGlobals}
 
 theorem cnt_specParams : ∀ (ps : List (Name × ATy)) (s : SpecSt), countEff (specParams ps s).out = countEff s.out
   | [], s => by unfold specParams; rfl
@@ -1612,7 +1612,7 @@ theorem cnt_specParams : ∀ (ps : List (Name × ATy)) (s : SpecSt), countEff (s
 
 theorem lay_bodyStmts (hg : GlobRel g rg) (hn : GNames g) (resTy : Ty) : ∀ (l : List BodyStmt) (rc : Bool),
     BodyStmt.anaOKL l = true → BodyStmt.f2L l = false → BodyStmt.f3L l = false → (l = [] → rc = false) →
-    ∀ s ss, DRel s ss → (bodyStmts g resTy l rc s).1.errors = s.errors →
+    ∀ s ss, DRel g resTy s ss → (bodyStmts g resTy l rc s).1.errors = s.errors →
       CPSv none s (bodyStmts g resTy l rc s).1 (BodyStmt.lowerL l (effCount s.root.context)) ∧
       ((bodyStmts g resTy l rc s).2 = true → endsRet (BodyStmt.lowerL l (effCount s.root.context)).1 = true)
   | [], rc => by
@@ -1760,7 +1760,7 @@ theorem T4_function (hg : GlobRel g rg) (hn : GNames g) (f : FnDecl) (hok : Body
   unfold FnDecl.hasF3 at hf3
   dsimp only at he ⊢
   have x1 := (esteps_initParams f.params St.init paramInv_init).errors_ext
-  have h1 := den_initParams f.params St.init SpecSt.init paramInv_init drel_init
+  have h1 := den_initParams (g := g) (R := f.result.toTy) f.params St.init SpecSt.init paramInv_init drel_init
   have st1 := esteps_initParams f.params St.init paramInv_init
   generalize initParams f.params St.init = s1 at he x1 h1 st1 ⊢
   have x2 := (steps_bodyStmts g f.result.toTy f.body false s1).errors_ext
